@@ -5,5 +5,4 @@ INIT Init
 NEXT Next
 INVARIANT TableExact
 INVARIANT HashExact
-INVARIANT CtorReadsInBounds
 CHECK_DEADLOCK FALSE
